@@ -381,6 +381,13 @@ def eval_in_simulation(ctx, n):
             ctx.count('simulation not usable: ' + str(tr.get('build_error') or tr['error'][1]))
             continue
         ctx.case_done(case, nontrivial=True)
+        if ctx.driver.available and spec['load']['coef'][4] == 0:
+            # the whole history, forces and stresses included, against the model's in-simulation gear computations
+            cm, st, recs = sim.parse_pipe(ctx.driver.ask([sim.pipe_line(spec, tr, b)])[0], spec, tr)
+            tr['gears_in_model'] = True
+            dm = cm or sim.compare_hist(tr, st, recs)
+            if dm is not None and not sim_props.near_threshold(spec, tr):
+                ctx.mismatch(case, dm, 'model history differs')
         chain = sim.spec_chain(spec, tr)
         idx_of = {e['name']: i + 1 for i, e in enumerate(chain)}
         # mating partner and role of every element from the declared relations
